@@ -52,6 +52,12 @@ func checkC12(c *Ctx) {
 	ruleCommandEncoderPairing(c, "C12.i")
 	c.rule("C12.j", "the pending-command and continuation-request queues stay in issue order (no in-place element overwrite)", 2)
 	ruleOrderedQueues(c, "C12.j")
+	c.rule("C12.k", "success returns of a response parser agree on returning the value the decoder filled in (a parsed correlator tag is not dropped)", 2)
+	ruleParsedValueReturned(c, "C12.k", "imapclient")
+	c.rule("C12.l", "a matcher that records the numbers it claimed is a test-and-set (no response claimed twice by one command)", 2)
+	ruleClaimOnce(c, "C12.l")
+	c.rule("C12.m", "delivery of untagged data into a pending command does not depend on the mirrored connection state", 18)
+	ruleRoutingIndependentOfMirror(c, "C12.m")
 }
 
 var mirrorTypes = map[string]bool{"SelectedMailbox": true, "SelectData": true, "UnilateralDataMailbox": true}
